@@ -382,7 +382,7 @@ func tryReplay(prog *Prog, fr *FuncResult, o *Obligation, timeoutS int) (string,
 		}
 		ins = append(ins, w)
 	}
-	dir := filepath.Join(verifRoot, "work", "replay")
+	dir := replayWorkDir()
 	os.MkdirAll(dir, 0o755)
 	asserts := obligationAsserts(fr, o)
 	// lengths bounded so that the model is small enough to write down
